@@ -404,8 +404,11 @@ func runC02(r *simkit.Run) {
 		for _, p := range s.prods {
 			// Cancellation is delivered only to a producer that sits in a select (waiting for space or for its
 			// result), never to one parked at a yield point: that would make two select cases ready at once, and Go's
-			// choice among ready cases is not under the tape's control (DESIGN.md section 8).
-			if p.req != nil && !p.cancelled && !p.task.Done() && p.lockAt == "" && (!p.blocked() || (p.lastSite == "cond.wait" && p.passed)) {
+			// choice among ready cases is not under the tape's control (DESIGN.md section 8). The one exception is a
+			// producer parked right after it took its wake-up ("cond.woken.signal"): its select is over, so a context
+			// that ends now - between the wake-up and the re-lock - is seen deterministically by whatever the queue
+			// does next with that context.
+			if p.req != nil && !p.cancelled && !p.task.Done() && p.lockAt == "" && (!p.blocked() || (p.lastSite == "cond.wait" && p.passed) || (p.lastSite == "cond.woken.signal" && !p.passed)) {
 				p := p
 				ch = append(ch, simkit.Choice{Name: fmt.Sprintf("cancel:p%d", p.id), W: 1, Fire: func() {
 					p.cancelled = true
